@@ -88,7 +88,11 @@ func (vc *VC) execCall(fr *Frame, st *State, instr ssa.Instruction, c *ssa.CallC
 func (vc *VC) callStatic(fr *Frame, st *State, callee *ssa.Function, closure *ssa.MakeClosure, args []string, argVals []ssa.Value, pos token.Pos) []string {
 	full := callee.String()
 	vc.atCall(fr, st, callee, args, pos)
-	vc.event(fr, st, shortFuncName(callee), args, sigTypes(callee.Signature, true)...)
+	if callee.Synthetic == "" {
+		// (synthetic wrappers, e.g. the pointer-receiver wrapper of a value method, forward to the real
+		// function, which records the event)
+		vc.event(fr, st, shortFuncName(callee), args, sigTypes(callee.Signature, true)...)
+	}
 	// 1. built-in models of library functions
 	if res, ok := vc.modelCall(fr, st, callee, args, argVals, pos); ok {
 		return res
